@@ -1400,27 +1400,8 @@ impl<'a> Run<'a> {
         }
         missing.iter().all(|k| {
             let name = &k.1;
-            let mut announces = 0;
-            let mut removed = false;
-            for o in &self.epoch {
-                match o {
-                    Op::Announce { pfx, .. }
-                        if format!("{}", base::prefix(&cfg.obs, *pfx)) == *name =>
-                    {
-                        announces += 1
-                    }
-                    Op::Withdraw { pfx, .. }
-                        if format!("{}", base::prefix(&cfg.obs, *pfx)) == *name =>
-                    {
-                        removed = true
-                    }
-                    Op::PeerDown { .. } | Op::StalePurge { .. } | Op::LlgrPurge { .. } => {
-                        removed = true
-                    }
-                    _ => {}
-                }
-            }
-            let recreated = announces >= 1 && (announces >= 2 || removed);
+            // removed entirely and announced again AFTER a refresh trigger of this epoch
+            let recreated = base::recreated_after_refresh(&cfg.obs, &self.epoch, name);
             let withdrawn_last = log.get(*k).is_some_and(|l| l.ends_with('U'));
             recreated && withdrawn_last
         })
